@@ -155,7 +155,22 @@ def _weights(ctx, net):
         net._edge_attr[e]["w"] = ctx.int(f"w{j}", 0, 5)
 
 
+def _no_raise(f):
+    """Views and statistics of a valid network must evaluate: an exception from the
+    library inside these harnesses is a violation, not a harness crash."""
+    import functools
+
+    @functools.wraps(f)
+    def g(ctx, p):
+        try:
+            return f(ctx, p)
+        except Exception as ex:
+            ctx.require(False, f"a view or statistic raised {type(ex).__name__} on a valid network")
+    return g
+
+
 @harness("C06.query")
+@_no_raise
 def query(ctx, p):
     H = nets.build_H(ctx, _shapeH(p["shape"]), attrs=True)[0]
     node, edge = H._node, H._edge
@@ -289,6 +304,7 @@ def query(ctx, p):
 
 
 @harness("C06.dquery")
+@_no_raise
 def dquery(ctx, p):
     """Directed views and stat arguments against definitions on the tables."""
     D = nets.build_D(ctx, _shapeD(p["shape"]), attrs=True)[0]
